@@ -22,7 +22,7 @@ def gen_blocks(rng):
         if rng.random() < 0.3:
             # commands that write non-note events (meta, controller, program, bend): they belong to the chunk of the track they are issued on
             body.insert(rng.randrange(0, len(body) + 1), ('raw', rng.choice(["TimeSignature(%d,%d)" % (rng.randint(2, 7), rng.choice([4, 8])), "Tempo(%d)" % rng.randint(60, 200),
-                "TrackName={\"t%d\"};" % rng.randint(0, 9), "TempoChange(%d,%d,!%d);" % (rng.randint(60, 200), rng.randint(60, 200), rng.choice([1, 2, 4])), "Cresc(!2,100);", "y7,%d;" % rng.randint(0, 127), "@%d;" % rng.randint(1, 128), "PB(%d)" % rng.randint(-100, 100), "Marker={\"m\"};", "P(%d)" % rng.randint(0, 127)])))
+                "TrackName={\"t%d\"};" % rng.randint(0, 9), "TempoChange(%d,%d,!%d);" % (rng.randint(60, 200), rng.randint(60, 200), rng.choice([1, 2, 4])), "y7,%d;" % rng.randint(0, 127), "@%d;" % rng.randint(1, 128), "PB(%d)" % rng.randint(-100, 100), "Marker={\"m\"};", "P(%d)" % rng.randint(0, 127)])))
         blocks.append((tr, body))
     return blocks
 
